@@ -6,6 +6,13 @@ from mirparse import EncodingError
 from interp import Ptr, LRef, Agg, Enum, UNIT, sx, BV
 
 
+_NAME_RE = re.compile(r"^c \d+ (.*)$", re.M)
+_IDENT_RE = re.compile(r"^[A-Za-z_][A-Za-z0-9_!.]*$")
+_INTERPRETED = {"bvule", "bvsle", "bvult", "bvslt", "bvuge", "bvsge", "bvugt", "bvsgt", "distinct", "if", "ite", "and", "or", "not", "xor", "iff",
+                "implies", "true", "false", "bvadd", "bvsub", "bvmul", "bvudiv", "bvurem", "bvsdiv", "bvsrem", "bvsmod", "bvand", "bvor", "bvxor",
+                "bvnot", "bvneg", "bvshl", "bvlshr", "bvashr", "concat", "extract", "select", "store", "bit2bool"}
+
+
 def _bits(n):
     b = 1
     while (1 << b) < n: b += 1
@@ -22,7 +29,13 @@ class BMC:
         self.por = self.opts.get("por", True)
         self.asserts = []
         self._subcache = {}; self._rescache = {}; self._keep = []
+        t0 = time.time()
         self.build()
+        if os.environ.get("VERIF_M_DEBUG"):
+            import sys
+            print("BMC: S=%d threads=%d vis-nodes=%s regs=%s mem-cells=%d asserts=%d build=%.1fs" % (
+                self.S, self.T, [len(g.vis()) for g in self.G], [len(r) for r in self.regs],
+                sum((d.get("n") or 1) for d in self.mem.values() if d["kind"] != "frozen"), len(self.asserts), time.time() - t0), file=sys.stderr)
 
     def add(self, *cs):
         self.asserts.extend(cs)
@@ -333,15 +346,14 @@ class BMC:
             sub = z3.Then("simplify", "propagate-values", "simplify", "bit-blast", "tseitin-cnf")(g)[0]
         else:
             sub = z3.Then("simplify", "propagate-values", "solve-eqs", "elim-uncnstr", "simplify", "bit-blast", "tseitin-cnf")(g)[0]
-        # fail closed: every literal of the CNF goal must be a propositional constant (an interpreted atom left over by the
-        # bit-blaster would be exported as a free variable, i.e. silently weaken the query)
-        for i in range(len(sub)):
-            c = sub[i]
-            for l in (c.children() if z3.is_or(c) else [c]):
-                a = l.arg(0) if z3.is_not(l) else l
-                if a.num_args() > 0:
-                    raise EncodingError("bit-blasting left an interpreted atom in the CNF: " + a.sexpr()[:200])
+        # fail closed: every variable of the CNF must be a propositional CONSTANT (ours, or a Tseitin auxiliary `k!n`): an interpreted
+        # atom left over by the bit-blaster would be exported as a free variable, i.e. silently weaken the query. The name table of
+        # the DIMACS export lists the declaration name of every atom, so an interpreted atom shows up under its operator name.
         txt = sub.dimacs(True)
+        for mname in _NAME_RE.finditer(txt):
+            nm = mname.group(1)
+            if nm in _INTERPRETED or not _IDENT_RE.match(nm):
+                raise EncodingError("bit-blasting left an interpreted atom in the CNF: " + nm)
         open(path, "w").write(txt)
         head = txt.split("\n", 1)[0].split()
         return {"vars": int(head[2]) if len(head) > 3 else 0, "clauses": int(head[3]) if len(head) > 3 else 0, "encode_s": time.time() - t0,
